@@ -143,7 +143,9 @@ def gen_cases(ctx, exe, S, only=None, seeds=None):
             L = max(spec["bufs"][po][1](sc), spec["bufs"][pi][1](sc))
             if fn in ("beltFMTEncr", "beltFMTDecr"):
                 L //= 2
-            for off in S.offsets(L, tier, rng):
+            # functions with two buffers only: EVERY relative offset, in every tier
+            offs = list(range(-(L + 16), L + 17)) if len(spec["bufs"]) == 2 and L <= 80 else S.offsets(L, tier, rng)
+            for off in offs:
                 for aux in (("out", "in", "in") if len(spec["bufs"]) > 2 else ("out",)):
                     nulls = [()]
                     if aux == "out" or rng.random() < 0.3:
